@@ -2,7 +2,7 @@
    Property theorems only; proofs are in Proofs.v .. Proofs6.v. *)
 From Coq Require Import List NArith Bool String.
 Import ListNotations.
-From TV Require Import Lib.C21_Utf8 Lib.C21_Pct C47.Model C47.Run C47.Proofs C47.Proofs2 C47.Proofs3 C47.Proofs4 C47.Proofs5 C47.Proofs6.
+From TV Require Import Lib.C21_Utf8 Lib.C21_Pct C47.Model C47.Run C47.Proofs C47.Proofs2 C47.Proofs3 C47.Proofs4 C47.Proofs5 C47.Proofs6 Gen.C47_src Gen.C47_equiv.
 Local Open Scope N_scope.
 
 (* ---- building the environ never raises ---- *)
@@ -33,11 +33,25 @@ Theorem C47_fixed_variables :
   forall r a e, environ r a = EnvOk e ->
   e_method e = r_method r /\ e_query e = q_query a /\ e_remote e = r_remote_ip r /\
   e_protocol e = (if r_v11 r then t "HTTP/1.1" else t "HTTP/1.0") /\
-  e_scheme e = (if r_https r then t "https" else t "http") /\ e_input e = r_body r /\
+  e_scheme e = (if q_https a then t "https" else t "http") /\ e_input e = r_body r /\
   path_info (q_path a) = Some (e_path e) /\
-  exists p, split_host (q_host a) (r_https r) = inl (e_name e, p) /\ e_port e = dec_N p.
+  exists p, split_host (q_host a) (q_https a) = inl (e_name e, p) /\ e_port e = dec_N p.
 Proof. exact environ_fixed. Qed.
 Print Assumptions C47_fixed_variables.
+
+(* request.protocol (which selects wsgi.url_scheme and the default SERVER_PORT) is the connection's
+   protocol, unless the server was created with xheaders=True and the request carries X-Scheme (else
+   X-Forwarded-Proto) whose last comma-separated entry, stripped, is exactly "http" or "https"; the
+   header lookup is the per-name value sequence of the request's own header lines. *)
+Theorem C47_request_protocol :
+  forall r a, accept r = Some a -> q_https a = https_spec r.
+Proof. exact accept_https. Qed.
+Print Assumptions C47_request_protocol.
+
+Theorem C47_protocol_without_xheaders :
+  forall r, r_xheaders r = false -> https_spec r = r_https r.
+Proof. intros r H. unfold https_spec, effective_https. rewrite H. reflexivity. Qed.
+Print Assumptions C47_protocol_without_xheaders.
 
 (* str(port) is the canonical decimal numeral of the port *)
 Theorem C47_port_is_printed_in_decimal :
@@ -190,12 +204,46 @@ Theorem C47_response_is_written :
 Proof. exact handle_request_writes. Qed.
 Print Assumptions C47_response_is_written.
 
-(* The model satisfies the very checker that is applied to the implementation's observable on every
-   correspondence case, for every input. *)
+(* One WSGIContainer serving any sequence of requests: the outcome of the k-th request (the environ
+   handed to the application and the response) is that of serving the k-th request alone; nothing is
+   carried over from earlier requests (e.g. a SERVER_PORT computed for another scheme). *)
+Theorem C47_requests_are_served_independently :
+  forall version pre r o post,
+  nth_error (container_run version tt (pre ++ (r, o) :: post)) (List.length pre) = Some (serve version r o).
+Proof. exact container_stateless. Qed.
+Print Assumptions C47_requests_are_served_independently.
+
+(* The model satisfies the very checker that is applied to the implementation's observables on every
+   correspondence case (a sequence of requests on one container), for every input. *)
 Theorem C47_model_satisfies_checker :
-  forall c, version_ok (ver_of c) = true -> check_case c (run_case c) = true.
+  forall c, version_ok (fst c) = true -> check_case c (run_case c) = true.
 Proof. exact check_case_model. Qed.
 Print Assumptions C47_model_satisfies_checker.
+
+(* ---- tie to the source text (regenerated from tornado/wsgi.py on every run) ---- *)
+
+(* The host/port statements of WSGIContainer.environ, compiled statement by statement by
+   translators/c47_src.py, compute the model's split_host for every Host value and scheme. *)
+Theorem C47_source_host_split_is_the_model :
+  forall h https, src_split_host h https = split_host h https.
+Proof. exact src_split_host_eq. Qed.
+Print Assumptions C47_source_host_split_is_the_model.
+
+(* The rest of environ(): the dict literal has the fifteen keys in the model's order with the value
+   sources the model assumes; the two content headers are popped into CONTENT_TYPE / CONTENT_LENGTH; the
+   loop key is the model's cgi_key; _path_bytes tries latin-1 then UTF-8; and environ reads nothing of
+   the container object but self.executor (no state between requests). *)
+Theorem C47_source_environ_shape :
+  src_fixed = expected_fixed /\
+  map (fun p => (t (fst p), t (snd p))) src_content = [(k_ctype, K_CT); (k_clen, K_CL)] /\
+  (forall k, src_cgi_key k = cgi_key k) /\
+  src_path_bytes = [Latin1; Utf8] /\
+  src_self_attrs = ["executor"%string].
+Proof.
+  split; [exact src_fixed_eq|]. split; [exact src_content_eq|]. split; [exact src_cgi_key_eq|].
+  split; [exact src_path_bytes_eq|exact src_self_attrs_eq].
+Qed.
+Print Assumptions C47_source_environ_shape.
 
 Example C47_hypotheses_are_satisfiable :
   version_ok (t "6.6.dev1") = true /\
